@@ -238,7 +238,8 @@ def check_bytes_codec(ctx):
     BF = model.cls("BytesField")
     encodings = model.const_eval(BF.module, BF.class_attrs["ENCODINGS"], BF)
     inverse = {"b64encode": "b64decode", "hex": "fromhex", "b32encode": "b32decode", "b16encode": "b16decode",
-               "hexlify": "unhexlify", "urlsafe_b64encode": "urlsafe_b64decode"}
+               "hexlify": "unhexlify", "urlsafe_b64encode": "urlsafe_b64decode", "standard_b64encode": "standard_b64decode",
+               "b85encode": "b85decode", "a85encode": "a85decode"}
     maps = {}
     for name in ("to_basic", "to_python"):
         f = model.method("BytesField", name)
@@ -291,10 +292,11 @@ def check_bytes_codec(ctx):
             rk.add(x.slice.value)
     ctx.ob("codec.secure.key-sets", tp, "keys written == keys read", wk == rk and bool(wk), "both sides use %s" % sorted(wk) if wk == rk and wk else
            "to_basic writes %s, to_python reads %s" % (sorted(wk), sorted(rk)))
-    enc = any(isinstance(x, ast.Call) and ast.unparse(x.func).endswith("b64encode") for x in ast.walk(tb.node))
-    dec = any(isinstance(x, ast.Call) and ast.unparse(x.func).endswith("b64decode") for x in ast.walk(tp.node))
-    ctx.ob("codec.secure.inverse-pair", tp, "b64encode <-> b64decode", enc and dec, "ciphertext is base64 both ways" if enc and dec else
-           "ciphertext encoding differs between to_basic and to_python")
+    encs = {ast.unparse(x.func).split(".")[-1] for x in ast.walk(tb.node) if isinstance(x, ast.Call) and ast.unparse(x.func).split(".")[-1] in inverse}
+    decs = {ast.unparse(x.func).split(".")[-1] for x in ast.walk(tp.node) if isinstance(x, ast.Call) and ast.unparse(x.func).split(".")[-1] in inverse.values()}
+    okp = len(encs) == 1 and decs == {inverse[next(iter(encs))]}
+    ctx.ob("codec.secure.inverse-pair", tp, "%s <-> %s" % (sorted(encs), sorted(decs)), okp, "ciphertext is written and read with an inverse pair" if okp else
+           "ciphertext is written with %s but read with %s" % (sorted(encs), sorted(decs)))
 
 
 def check_bool_number(ctx):
